@@ -507,11 +507,15 @@ fn decode_family(t: &mut Tape) -> FamCase {
         let mut line = if t.chance(1, 3) {
             // a sibling of the first pattern: same text with another anchor / tail
             let b = first.pattern.trim_start_matches('|').trim_end_matches('|').to_string();
-            match t.pick(5) {
+            match t.pick(8) {
                 0 => format!("|{}", b),
                 1 => format!("{}|", b),
                 2 => format!("{}^", b),
                 3 => format!("{}*x|", b),
+                // pinned on both sides: the whole URL, and a longer whole URL with the same prefix
+                4 => format!("|{}|", b),
+                5 => format!("|{}{}|", b, gen::word(t)),
+                6 => format!("{}{}|", b, gen::word(t)),
                 _ => format!("|{}*{}", b, gen::word(t)),
             }
         } else {
@@ -522,7 +526,28 @@ fn decode_family(t: &mut Tape) -> FamCase {
         }
         patterns.push(line.trim_start_matches("@@").to_string());
     }
-    FamCase { patterns, urls: first.urls }
+    let mut urls = first.urls;
+    if t.chance(1, 4) && !pool.is_empty() {
+        // whole-URL rules (`|url|`) for a pool URL, a proper prefix of it and an extension of it
+        let u: String = pool[0].chars().filter(|c| !"*^|$\\".contains(*c)).collect();
+        if let Some(i) = u.find("://") {
+            if let Some(j) = u[i + 3..].find('/') {
+                let min = i + 3 + j + 1; // keep at least scheme://host/
+                if u.len() > min && u.is_char_boundary(min) {
+                    let cs: Vec<(usize, char)> = u.char_indices().filter(|(k, _)| *k >= min).collect();
+                    let cut = cs[t.pick(cs.len())].0;
+                    let fam = [u.clone(), u[..cut].to_string(), format!("{}a", u), format!("{}/", u)];
+                    for f in fam.iter() {
+                        if t.chance(2, 3) {
+                            patterns.push(format!("|{}|", f));
+                        }
+                        urls.push(f.clone());
+                    }
+                }
+            }
+        }
+    }
+    FamCase { patterns, urls }
 }
 
 fn decode_random(t: &mut Tape) -> PatCase {
@@ -613,7 +638,7 @@ fn probe_scheme_mask() -> Result<(), String> {
 }
 
 pub fn check(ctx: &mut Ctx) {
-    ctx.rule = "exhaustive: every pattern over {a b . / * ^} up to length 4 (quick) / 6 (thorough) x anchors {none, |, ||, ..|, |..|, ||..|} x a universe of ~180 URLs over the same alphabet (hosts with repeated/overlapping labels, ports, https/ws); random: patterns cut from generated URLs (hosts in which the anchor text occurs several times), ^/* sprinkled, x pool URLs and one-edit perturbations; regex: /re/ rules from a small regex grammar vs the regex crate; long: URLs of 20-300 path segments (mixed case towards the end) with patterns of 1-150 segments joined by '/', '^' or '*' cut from their tail, or literal runs of 200-1700 characters; family: 2-5 patterns cut from one URL pool (1 in 3 a re-anchored sibling of the first) loaded together into an optimising and a non-optimising engine, which must block a URL iff the reference says some pattern matches it. Strict comparison with the backtracking reference for non-degenerate patterns (both NetworkFilter::matches and a single-rule engine); weakening relations (drop anchor, char->*, append *, ||HOST->HOST) on all patterns. Non-trivial = the reference says the pattern matches the URL.".into();
+    ctx.rule = "exhaustive: every pattern over {a b . / * ^} up to length 4 (quick) / 6 (thorough) x anchors {none, |, ||, ..|, |..|, ||..|} x a universe of ~180 URLs over the same alphabet (hosts with repeated/overlapping labels, ports, https/ws); random: patterns cut from generated URLs (hosts in which the anchor text occurs several times), ^/* sprinkled, x pool URLs and one-edit perturbations; regex: /re/ rules from a small regex grammar vs the regex crate; long: URLs of 20-300 path segments (mixed case towards the end) with patterns of 1-150 segments joined by '/', '^' or '*' cut from their tail, or literal runs of 200-1700 characters; family: 2-5 patterns cut from one URL pool (1 in 3 a re-anchored sibling of the first; 1 case in 4 adds whole-URL rules `|url|` for a pool URL, a proper prefix and two extensions of it, and those URLs) loaded together into an optimising and a non-optimising engine, which must block a URL iff the reference says some pattern matches it. Strict comparison with the backtracking reference for non-degenerate patterns (both NetworkFilter::matches and a single-rule engine); weakening relations (drop anchor, char->*, append *, ||HOST->HOST) on all patterns. Non-trivial = the reference says the pattern matches the URL.".into();
     ctx.assumptions = vec![
         "domain as stated by C02 plus: empty ||HOST and ||www.… hosts are not compared strictly (the parser strips www. by design)".into(),
         "requests are third-party script requests so that default options never restrict".into(),
